@@ -1,5 +1,137 @@
-import Arp.Model.Arith
-import Arp.Spec.Ops
+import Arp.Lemmas.CastScale
+/-!
+# C06 — casting between formats is exact when possible and otherwise correctly rounded
+-/
 namespace Arp.C06
-theorem smoke : (1:Nat) + 1 = 2 := rfl
+open Arp
+
+/-- The cast of a canonical value is the source value rounded once into the destination
+    format under the requested mode, for every pair of (well-formed) formats. -/
+theorem cast_correct (x : Flt) (G : Sem) (rm : RM) (hF : x.sem.WF) (hG : G.WF)
+    (hc : x.Canonical) : (x.castWithRm G rm).toRes = Spec.cast G rm x := by
+  cases hx : x.cat
+  · simp [Flt.castWithRm, Spec.cast, hx, Flt.toRes, Flt.inf]
+  · simp [Flt.castWithRm, Spec.cast, hx, Flt.toRes, Flt.nan]
+  · rw [cast_normal x G rm hF hG hx hc]; simp [Spec.cast, hx]
+  · simp [Flt.castWithRm, Spec.cast, hx, Flt.toRes, Flt.zero]
+
+/-- the smallest FP16 subnormal into a bfloat16-like format (8, 8), rounding up -/
+example : ((⟨FP16, false, -14, 1, .normal⟩ : Flt).castWithRm ⟨8, 8, .nte⟩ .pos).toRes
+    = Spec.cast ⟨8, 8, .nte⟩ .pos ⟨FP16, false, -14, 1, .normal⟩ :=
+  cast_correct _ _ _ (by decide) (by decide) (by decide)
+
+/-- `cast` uses the source format's mode. -/
+theorem cast_default (x : Flt) (G : Sem) : x.cast G = x.castWithRm G x.sem.rm := rfl
+
+/-- Zeros, infinities and NaN keep category and sign (and carry no exponent/significand). -/
+theorem cast_special (x : Flt) (G : Sem) (rm : RM) (hx : x.cat ≠ .normal) :
+    x.castWithRm G rm = ⟨G, x.sign, 0, 0, x.cat⟩ := by
+  unfold Flt.castWithRm
+  cases h : x.cat <;> simp_all [Flt.zero, Flt.inf, Flt.nan]
+
+theorem cast_special_canonical (x : Flt) (G : Sem) (rm : RM) (hx : x.cat ≠ .normal) :
+    (x.castWithRm G rm).Canonical ∧ (x.castWithRm G rm).cat = x.cat
+      ∧ (x.castWithRm G rm).sign = x.sign ∧ (x.castWithRm G rm).sem = G := by
+  rw [cast_special x G rm hx]
+  refine ⟨?_, rfl, rfl, rfl⟩
+  rw [Flt.canonical_special (by simpa using hx)]
+  exact ⟨rfl, rfl⟩
+
+example : (⟨FP16, true, 0, 0, .inf⟩ : Flt).castWithRm FP32 .nte = ⟨FP32, true, 0, 0, .inf⟩ :=
+  cast_special _ _ _ (by decide)
+
+/-- A representable value is cast exactly: if `y` is the canonical value of format `G` with
+    the sign and magnitude of `x`, the cast returns `y` (as a structure, hence also `toRes`). -/
+theorem cast_exact_eq (x : Flt) (G : Sem) (rm : RM) (hF : x.sem.WF) (hG : G.WF)
+    (hx : x.cat = .normal) (hc : x.Canonical)
+    (y : Flt) (hyG : y.sem = G) (hy : y.cat = .normal) (hyc : y.Canonical)
+    (hs : y.sign = x.sign) (hm : y.mag = x.mag) : x.castWithRm G rm = y := by
+  subst hyG
+  exact cast_eq_of_canonical x y rm hF hG hx hc hy hyc hs hm
+
+theorem cast_exact (x : Flt) (G : Sem) (rm : RM) (hF : x.sem.WF) (hG : G.WF)
+    (hx : x.cat = .normal) (hc : x.Canonical)
+    (y : Flt) (hyG : y.sem = G) (hy : y.cat = .normal) (hyc : y.Canonical)
+    (hs : y.sign = x.sign) (hm : y.mag = x.mag) : (x.castWithRm G rm).toRes = y.toRes := by
+  rw [cast_exact_eq x G rm hF hG hx hc y hyG hy hyc hs hm]
+
+/-- FP32 `1.0` (exp 0, mant 2^23) narrows exactly to FP16 `1.0` (exp 0, mant 2^10). -/
+example : (⟨FP32, false, 0, 8388608, .normal⟩ : Flt).castWithRm FP16 .zero
+    = ⟨FP16, false, 0, 1024, .normal⟩ :=
+  cast_exact_eq _ _ _ (by decide) (by decide) rfl (by decide) _ rfl rfl (by decide) rfl
+    (by rw [Flt.mag_eq, Flt.mag_eq]; norm_num [FP16, FP32])
+
+/-- Every canonical normal value of `F` is representable in a format `G` that is at least as
+    wide in exponent range and in precision. -/
+theorem widen_representable (x : Flt) (G : Sem) (hge : x.sem.e ≤ G.e) (hgp : x.sem.p ≤ G.p)
+    (hF : x.sem.WF) (hG : G.WF) (hx : x.cat = .normal) (hc : x.Canonical) :
+    ∃ y : Flt, y.sem = G ∧ y.cat = .normal ∧ y.Canonical ∧ y.sign = x.sign ∧ y.mag = x.mag := by
+  obtain ⟨h1, h2, h3, h4, h5⟩ := (Flt.canonical_normal hx).mp hc
+  have hFe := hF.1
+  have hmsb : msb x.mant ≤ x.sem.p := msb_le_of_lt_cs h4
+  have hemin := Sem.emin_anti hge
+  have hemax := Sem.emax_mono (by omega) hge
+  have := exists_canonical G hG x.sign x.mant (x.exp - ((x.sem.p : Int) - 1)) (ne_of_gt h3)
+    (lt_of_lt_of_le h4 (Nat.pow_le_pow_right (by norm_num) hgp)) (by omega) (by omega)
+  rw [← Flt.mag_eq] at this
+  exact this
+
+/-- Widening is lossless (structural form): the result is the canonical value of `G` with the
+    same sign and magnitude. -/
+theorem widen_lossless_normal (x : Flt) (G : Sem) (rm : RM) (hge : x.sem.e ≤ G.e)
+    (hgp : x.sem.p ≤ G.p) (hF : x.sem.WF) (hG : G.WF) (hx : x.cat = .normal) (hc : x.Canonical) :
+    (x.castWithRm G rm).sem = G ∧ (x.castWithRm G rm).cat = .normal
+      ∧ (x.castWithRm G rm).Canonical ∧ (x.castWithRm G rm).sign = x.sign
+      ∧ (x.castWithRm G rm).mag = x.mag := by
+  obtain ⟨y, hyG, hy, hyc, hs, hm⟩ := widen_representable x G hge hgp hF hG hx hc
+  rw [cast_exact_eq x G rm hF hG hx hc y hyG hy hyc hs hm]
+  exact ⟨hyG, hy, hyc, hs, hm⟩
+
+theorem res_val_toRes (y : Flt) : Res.val y.sem y.toRes = y.val := by
+  obtain ⟨ys, ysg, ye, ym, yc⟩ := y
+  cases yc <;> simp [Flt.toRes, Res.val, Flt.val, Flt.mag]
+
+/-- Widening precision and exponent range is lossless: value, category and sign are kept,
+    in every mode. -/
+theorem widen_lossless (x : Flt) (G : Sem) (rm : RM) (hge : x.sem.e ≤ G.e) (hgp : x.sem.p ≤ G.p)
+    (hF : x.sem.WF) (hG : G.WF) (hc : x.Canonical) :
+    Res.val G ((x.castWithRm G rm).toRes) = x.val ∧ (x.castWithRm G rm).cat = x.cat
+      ∧ (x.castWithRm G rm).sign = x.sign ∧ (x.castWithRm G rm).Canonical := by
+  by_cases hx : x.cat = .normal
+  · obtain ⟨a, b, c, d, e⟩ := widen_lossless_normal x G rm hge hgp hF hG hx hc
+    refine ⟨?_, by rw [b, hx], d, c⟩
+    have := res_val_toRes (x.castWithRm G rm)
+    rw [a] at this
+    rw [this]; unfold Flt.val; rw [b, hx, d, e]
+  · obtain ⟨a, b, c, d⟩ := cast_special_canonical x G rm hx
+    refine ⟨?_, b, c, a⟩
+    have := res_val_toRes (x.castWithRm G rm)
+    rw [d] at this
+    rw [this]; unfold Flt.val
+    rw [b]; cases h : x.cat <;> simp_all
+
+/-- an FP16 subnormal widened to FP32 -/
+example : Res.val FP32 (((⟨FP16, true, -14, 3, .normal⟩ : Flt).castWithRm FP32 .neg).toRes)
+    = (⟨FP16, true, -14, 3, .normal⟩ : Flt).val :=
+  (widen_lossless _ _ _ (by decide) (by decide) (by decide) (by decide) (by decide)).1
+
+/-- Widening followed by narrowing (under any two modes) is the identity, as an equality of
+    structures. -/
+theorem widen_narrow_id (x : Flt) (G : Sem) (rm1 rm2 : RM) (hge : x.sem.e ≤ G.e)
+    (hgp : x.sem.p ≤ G.p) (hF : x.sem.WF) (hG : G.WF) (hc : x.Canonical) :
+    (x.castWithRm G rm1).castWithRm x.sem rm2 = x := by
+  by_cases hx : x.cat = .normal
+  · obtain ⟨a, b, c, d, e⟩ := widen_lossless_normal x G rm1 hge hgp hF hG hx hc
+    exact cast_eq_of_canonical (x.castWithRm G rm1) x rm2 (by rw [a]; exact hG) hF b c hx hc
+      d.symm e.symm
+  · rw [cast_special x G rm1 hx, cast_special _ _ _ (by simpa using hx)]
+    obtain ⟨he, hm⟩ := (Flt.canonical_special hx).mp hc
+    obtain ⟨xs, xsg, xe, xm, xc⟩ := x
+    simp only at he hm ⊢
+    subst he hm; rfl
+
+example : ((⟨FP16, true, -14, 3, .normal⟩ : Flt).castWithRm FP32 .neg).castWithRm FP16 .pos
+    = ⟨FP16, true, -14, 3, .normal⟩ :=
+  widen_narrow_id _ _ _ _ (by decide) (by decide) (by decide) (by decide) (by decide)
+
 end Arp.C06
